@@ -819,6 +819,12 @@ FAMILY_FIELDS = {"Node": ["id"], "Named": ["name"], "User": ["id", "name"], "Bot
 FAMILY_MEMBERS = {"Node": ["User", "Bot", "Doc"], "Named": ["User", "Bot"], "SR": ["User", "Bot", "Doc"], "User": ["User"], "Bot": ["Bot"], "Doc": ["Doc"]}
 
 
+# operation names whose order differs from the order of their UPPER_SNAKE constants (`GetUser` < `GetUsers` but
+# `GET_USERS_GQL` < `GET_USER_GQL`; `fetchUserById` < `fetchUsers` but `FETCH_USERS_GQL` < `FETCH_USER_BY_ID_GQL`): with
+# ExtractOperationsPlugin every constant must still hold the document of its own operation
+ORDER_STRESS_OP_NAMES = ["GetUsers", "GetUser", "fetchUsers", "fetchUserById"]
+
+
 def gen_family_case(rng: random.Random, idx: int) -> Optional[Dict[str, Any]]:
     """fragment graphs at abstract positions of a fixed schema with two overlapping interfaces and a union: spreads of
     fragments on the position's type, on members, on the OTHER interface (dropped by the generator: finding C02-F7),
@@ -860,7 +866,7 @@ def gen_family_case(rng: random.Random, idx: int) -> Optional[Dict[str, Any]]:
             m = rng.choice(FAMILY_MEMBERS[typ])
             sel.append(f"... on {m} {{ {rng.choice(FAMILY_FIELDS[m])} }}")
         extra = ' e1: echoStr(s: "lit # 1")' if rng.random() < 0.3 else ""
-        ops.append(f"query Fam{k} {{ {field} {{ {' '.join(sel)} }}{extra} }}")
+        ops.append(f"query {ORDER_STRESS_OP_NAMES[k]} {{ {field} {{ {' '.join(sel)} }}{extra} }}")
     try:
         from graphql import NoUnusedFragmentsRule, build_schema, parse, print_ast, specified_rules, validate
 
@@ -871,7 +877,7 @@ def gen_family_case(rng: random.Random, idx: int) -> Optional[Dict[str, Any]]:
     except Exception:  # noqa: BLE001
         return None
     return {"label": f"family-{idx}", "sdl": FAMILY_SDL, "queries": queries, "config": {},
-            "calls": [{"op": f"Fam{k}", "vars": {}, "seed": idx} for k in range(len(ops))], "n_ops": len(ops), "n_frags": len(frags)}
+            "calls": [{"op": ORDER_STRESS_OP_NAMES[k], "vars": {}, "seed": idx} for k in range(len(ops))], "n_ops": len(ops), "n_frags": len(frags)}
 
 
 def gen_family_cases(rng: random.Random, n: int) -> List[Dict[str, Any]]:
@@ -1003,9 +1009,12 @@ def gen_graph_case(rng: random.Random, idx: int, plant: float = 0.5) -> Optional
                 parts.append(f"... on {m} {{ {body(m, depth - 1, 0.6)} }}")
         elif t == "Resource" and rng.random() < 0.4:  # an abstract type with one member
             parts.append(f"... on Image {{ {body('Image', depth - 1, 0.6)} }}")
-        elif t in GRAPH_IFACES and rng.random() < 0.08:
+        elif t in GRAPH_IFACES and rng.random() < 0.2:
+            # an inline fragment on an IMPLEMENTED INTERFACE inside an object selection, preferably holding spreads: it is
+            # resolved with the interface as root type, so a fragment on that interface spread inside it is inherited
+            # (and the closure walk below it supplies what that fragment spreads on other abstract types)
             i = rng.choice(GRAPH_IFACES[t])
-            parts.append(f"... on {i} {{ {body(i, 0, 0.5)} }}")
+            parts.append(f"... on {i} {{ {body(i, 0, 0.85)} }}")
         if depth > 0:
             for f, ft in GRAPH_COMPOSITE.get(t, []):
                 if rng.random() < 0.3:
@@ -1070,7 +1079,7 @@ def gen_graph_case(rng: random.Random, idx: int, plant: float = 0.5) -> Optional
             sel.append(f"{f} {{ {' '.join(parts)} }}")
         if rng.random() < 0.2:
             sel.append('e1: echoStr(s: "lit # 1")')
-        ops.append(f"query Gr{k} {{ {' '.join(sel)} }}")
+        ops.append(f"query {ORDER_STRESS_OP_NAMES[k]} {{ {' '.join(sel)} }}")
     try:
         from graphql import NoUnusedFragmentsRule, build_schema, parse, print_ast, specified_rules, validate
 
@@ -1081,7 +1090,7 @@ def gen_graph_case(rng: random.Random, idx: int, plant: float = 0.5) -> Optional
     except Exception:  # noqa: BLE001
         return None
     return {"label": f"graph-{idx}", "sdl": GRAPH_SDL, "queries": queries, "config": {},
-            "calls": [{"op": f"Gr{k}", "vars": {}, "seed": idx} for k in range(len(ops))], "n_ops": len(ops), "n_frags": len(texts)}
+            "calls": [{"op": ORDER_STRESS_OP_NAMES[k], "vars": {}, "seed": idx} for k in range(len(ops))], "n_ops": len(ops), "n_frags": len(texts)}
 
 
 def gen_graph_cases(rng: random.Random, n: int) -> List[Dict[str, Any]]:
